@@ -347,6 +347,21 @@ def _py_functions():
     body = [n for n in tree.body if (isinstance(n, pyast.FunctionDef) and n.name in ('allele_pair', 'allele_pair_sqrt')) or (isinstance(n, pyast.Assign) and isinstance(n.targets[0], pyast.Name) and n.targets[0].id == 'small_allele_pair')]
     ns = {'math': math}
     exec(compile(pyast.Module(body=body, type_ignores=[]), 'types-extract', 'exec'), ns)
+    # every other module-level value the codec functions read (none today): bound as the module binds it
+    codec = [n for n in tree.body if isinstance(n, pyast.FunctionDef) and n.name in ('allele_pair', 'allele_pair_sqrt')]
+    for c_ in tree.body:
+        if isinstance(c_, pyast.ClassDef) and c_.name == '_tcall':
+            codec += [n for n in c_.body if isinstance(n, pyast.FunctionDef) and n.name in ('_convert_to_encoding', '_convert_from_encoding')]
+    read = {n.id for f in codec for n in pyast.walk(f) if isinstance(n, pyast.Name) and isinstance(n.ctx, pyast.Load)}
+    for n in tree.body:
+        tg = n.targets[0] if isinstance(n, pyast.Assign) and len(n.targets) == 1 else (n.target if isinstance(n, pyast.AnnAssign) and n.value is not None else None)
+        if isinstance(tg, pyast.Name) and tg.id in read and tg.id not in ns:
+            if isinstance(n, pyast.AnnAssign):
+                n = pyast.copy_location(pyast.Assign(targets=[tg], value=n.value), n)
+            try:
+                exec(compile(pyast.fix_missing_locations(pyast.Module(body=[n], type_ignores=[])), 'types-extract', 'exec'), ns)
+            except Exception:  # pylint: disable=broad-except
+                pass  # not evaluable in isolation: a NameError in the codec then counts as a harness error, not as a witness
     return ns
 
 
@@ -364,10 +379,17 @@ def _py_codec():
             a.annotation = None
     ns = dict(_py_functions())
 
-    class Call:
-        def __init__(self, alleles, phased=False):
-            self.alleles, self.phased, self.ploidy = list(alleles), phased, len(alleles)
+    # the real hl.Call: __init__, __eq__, __hash__, __repr__ and the three properties, taken from call.py
+    ctree = pyast.parse(core.read_repo(CALLPY))
+    ccls = [n for n in ctree.body if isinstance(n, pyast.ClassDef) and n.name == 'Call'][0]
+    keep = [n for n in ccls.body if isinstance(n, pyast.FunctionDef) and n.name in ('__init__', '__eq__', '__hash__', '__repr__', 'alleles', 'ploidy', 'phased') and all(isinstance(d, pyast.Name) and d.id == 'property' for d in n.decorator_list)]
+    for f in keep:
+        f.returns = None
+    from collections.abc import Sequence
 
+    cns = {'Sequence': Sequence}
+    exec(compile(pyast.fix_missing_locations(pyast.Module(body=[pyast.ClassDef(name='Call', bases=[], keywords=[], body=keep, decorator_list=[])], type_ignores=[])), 'call-extract', 'exec'), cns)
+    Call = cns['Call']
     ns['genetics'] = type('G', (), {'Call': Call})
     exec(compile(pyast.Module(body=fns, type_ignores=[]), 'tcall-extract', 'exec'), ns)
 
@@ -387,10 +409,15 @@ def _py_codec():
         ns['_convert_to_encoding'](None, w, Call(alleles, phased))
         return w.v
 
-    def dec(v):
-        c = ns['_convert_from_encoding'](None, R(v))
-        return list(c.alleles), c.phased
+    freezable = '_should_freeze' in [a.arg for f in fns if f.name == '_convert_from_encoding' for a in f.args.args + f.args.kwonlyargs]
 
+    def dec(v, freeze=False):
+        """-> the decoded hl.Call (decoded as a set element / dict key when freeze)"""
+        if freeze and freezable:
+            return ns['_convert_from_encoding'](None, R(v), _should_freeze=True)
+        return ns['_convert_from_encoding'](None, R(v))
+
+    dec.Call = Call
     return enc, dec
 
 
@@ -412,10 +439,11 @@ def concrete_search(objs):
     cases = [((), False), ((), True)] + [((a,), ph) for a in (0, 1, 5, 65535, 65536, (1 << 28) - 1, 1 << 28, (1 << 29) - 1) for ph in (False, True)]
     for k in ks:
         for j in sorted({0, 1, k // 2, max(k - 1, 0), k}):
-            if tri(k) + j < (1 << 29):
+            if j <= k and tri(k) + j < (1 << 29):
                 cases.append(((j, k), False))
                 cases.append(((j, k - j), True))
-    for alleles, ph in cases:
+    scls = _staged_class()
+    for second_pass, (alleles, ph) in [(False, c_) for c_ in cases] + [(True, c_) for c_ in reversed(cases)]:
         want_rep = 0 if not alleles else (alleles[0] if len(alleles) == 1 else (tri(alleles[1]) + alleles[0] if not ph else tri(alleles[0] + alleles[1]) + alleles[0]))
         want = _i32(int(ph) | (len(alleles) << 1) | (want_rep << 3))
         rec = {'alleles': list(alleles), 'phased': ph, 'specified_int32': want}
@@ -429,12 +457,16 @@ def concrete_search(objs):
             return dict(rec, confirmed=True, what='engine rejects a call in range: %s' % e)
         if got_py != sc or sc != want:
             return dict(rec, confirmed=True, what='front end and engine pack the call differently (or not as specified)', front_end_int32=got_py, engine_int32=sc)
-        try:
-            back = dec(sc)
-        except Exception as e:  # pylint: disable=broad-except
-            return dict(rec, confirmed=True, what='front end cannot decode the engine call: %r' % e, engine_int32=sc)
-        if back != (list(alleles), ph):
-            return dict(rec, confirmed=True, what='decode(encode(call)) is a different call', decoded={'alleles': back[0], 'phased': back[1]})
+        packed = dec.Call(list(alleles), ph)
+        for freeze in (False, True):
+            try:
+                back = dec(sc, freeze)
+            except NameError:
+                raise  # the extraction misses a module-level name: harness error, not a witness
+            except Exception as e:  # pylint: disable=broad-except
+                return dict(rec, confirmed=True, what='front end cannot decode the engine call: %r' % e, engine_int32=sc, decoded_as_set_element_or_dict_key=freeze)
+            if not (back == packed and packed == back and hash(back) == hash(packed)):
+                return dict(rec, confirmed=True, what='the decoded call does not equal the packed call (hl.Call.__eq__)' + (' - decoding depends on what was decoded before in the same process' if second_pass else ''), decoded=repr(back), packed=repr(packed), decoded_as_set_element_or_dict_key=freeze, engine_int32=sc)
         C = S['Call']
         fields = (C['ploidy'].eval(sc), C['isPhased'].eval(sc), C['alleleRepr'].eval(sc))
         if fields != (len(alleles), ph, want_rep):
@@ -443,7 +475,17 @@ def concrete_search(objs):
             p = C['allelePairUnchecked'].eval(sc)
             if (S['AllelePair']['j'].eval(p), S['AllelePair']['k'].eval(p)) != tuple(alleles):
                 return dict(rec, confirmed=True, what='engine unpacks a different allele pair', engine_pair=[S['AllelePair']['j'].eval(p), S['AllelePair']['k'].eval(p)])
+        if not second_pass:
+            bad = _staged_mismatch(scls, objs, alleles, ph, sc)
+            if bad is not None:
+                return bad
     return {'confirmed': False}
+
+
+def native_witness(ctx):
+    """used by vc.check when the contracts no longer fit a changed source: a failing input replayed on the real code"""
+    objs = scvc.load_objects([os.path.join(core.REPO, p) for p in SCALA])
+    return concrete_search(objs)
 
 
 def pairs(ctx, objs, tier):
